@@ -20,7 +20,12 @@ CONSTANTS Limit,          \* the parser's nesting limit (its value is measured b
           ChainsCounted
 Nested == {"paren", "array", "map", "subscript", "call_args", "not", "neg", "ternary", "pow", "if", "for", "filter_section", "set_block", "block", "component_body", "comprehension",
            \* expressions re-entered from component-call attributes, spreads, call arguments, slice bounds
-           "component_spread", "component_attr", "map_spread", "filter_arg", "test_arg", "slice_bound", "opt_subscript"}
+           "component_spread", "component_attr", "map_spread", "filter_arg", "test_arg", "slice_bound", "opt_subscript",
+           \* subscripts on something that is not a name (a literal, a string, a call, a parenthesis, an array), and
+           \* ALTERNATIONS of two productions: a counter kept per production, or reset by another production, is no limit
+           "lit_subscript", "str_subscript", "call_subscript", "paren_subscript", "array_subscript", "mixed_subscript", "lit_slice_bound",
+           "alt_paren_subscript", "alt_array_map", "alt_call_array", "alt_neg_paren", "alt_not_paren", "alt_ternary_paren", "alt_filter_arg_subscript",
+           "alt_if_for", "alt_set_filter_section", "alt_comprehension_paren"}
 Chains == {"elif", "binop", "and_or", "filter", "attribute", "subscript_chain", "test", "concat"}
 VARIABLES depth, chain, status, shape
 vars == <<depth, chain, status, shape>>
